@@ -39,6 +39,12 @@ type Meta struct {
 
 // TokenReader satisfies the xmlstream.Marshaler interface.
 func (m *Meta) TokenReader() xml.TokenReader {
+	// The hash is optional; HashOutput.TokenReader panics without a known hash
+	// function.
+	var hash xml.TokenReader
+	if _, err := m.Hash.Hash.MarshalXMLAttr(xml.Name{Local: "algo"}); err == nil {
+		hash = m.Hash.TokenReader()
+	}
 	return xmlstream.Wrap(
 		xmlstream.MultiReader(
 			xmlstream.Wrap(
@@ -65,7 +71,7 @@ func (m *Meta) TokenReader() xml.TokenReader {
 					Name: xml.Name{Local: "size"},
 				},
 			),
-			m.Hash.TokenReader(),
+			hash,
 			xmlstream.Wrap(
 				xmlstream.Token(xml.CharData(strconv.FormatUint(m.Width, 10))),
 				xml.StartElement{
